@@ -175,11 +175,12 @@ theorem nchangeState_sil (hC : NoCmds sc) (scope : Scope) (x : Ctx) (dest : SPat
   · simp only [Res.state?, Option.some.injEq] at h; subst h; exact Adds.refl _
   · simp [Res.state?] at h
   · rename_i r _
+    have q0 : Adds ts [] s ({ s with exited := s.exited ++ r.exitNames } : NSt) := Adds.of_glog rfl
     rcases bind_state h with ⟨e, he⟩ | ⟨a, s1, he, h1⟩
-    · exact exitAll_sil sub sc cfg hC x _ s s' (by rw [he]; rfl)
-    · have q1 : Adds ts [] s s1 := exitAll_sil sub sc cfg hC x _ s s1 (by rw [he]; rfl)
+    · exact q0.sil_r (exitAll_sil sub sc cfg hC x _ _ s' (by rw [he]; rfl))
+    · have q1 : Adds ts [] _ s1 := exitAll_sil sub sc cfg hC x _ _ s1 (by rw [he]; rfl)
       have q2 : Adds ts [] _ s' := enterAll_sil sub sc cfg hC x _ _ s' h1
-      exact q1.sil_r ((Adds.of_glog (s := s1) (s' := { s1 with conf := r.tree }) rfl).sil_r q2)
+      exact q0.sil_r (q1.sil_r ((Adds.of_glog (s := s1) (s' := { s1 with conf := r.tree }) rfl).sil_r q2))
 
 /-- `Transition.execute` for `tr` opens exactly one offer, executed iff it returns `True` -/
 theorem nexecute_post2 (hC : NoCmds sc) (scope : Scope) (x : Ctx) (tr : TRef) (t : NTrans) (s : NSt) :
@@ -225,6 +226,153 @@ theorem nexecute_post2 (hC : NoCmds sc) (scope : Scope) (x : Ctx) (tr : TRef) (t
     (fun s' h => ⟨true, a6.sil_r h⟩) ?_
   intro _ s7 h7
   exact a6.sil_r h7
+
+end
+
+theorem Post.and {α : Type} {P1 P2 : α → NSt → Prop} {E1 E2 : NSt → Prop} {r : NR α} (h1 : Post P1 E1 r)
+    (h2 : Post P2 E2 r) : Post (fun a s => P1 a s ∧ P2 a s) (fun s => E1 s ∧ E2 s) r := by
+  cases r with
+  | ok a s1 => exact ⟨h1, h2⟩
+  | err e s1 => exact ⟨h1, h2⟩
+  | oof => trivial
+
+/-! ### `event_data.exited_states` only grows while an event is processed; callbacks do not touch it -/
+
+/-- everything exited so far is still recorded -/
+def ExSub (s s' : NSt) : Prop := ∀ q ∈ s.exited, q ∈ s'.exited
+
+theorem ExSub.refl (s : NSt) : ExSub s s := fun _ h => h
+
+theorem ExSub.trans {a b c : NSt} (h1 : ExSub a b) (h2 : ExSub b c) : ExSub a c := fun q h => h2 q (h1 q h)
+
+theorem ExSub.of_eq {s s' : NSt} (h : s'.exited = s.exited) : ExSub s s' := fun q hq => by rw [h]; exact hq
+
+section
+variable (sub : NSub) (sc : Script) (cfg : NCfg)
+
+theorem ninvoke_exited (hC : NoCmds sc) (slot : Slot) (x : Ctx) (c : Nat) (s s' : NSt)
+    (h : (ninvoke sub sc cfg slot x c s).state? = some s') : s'.exited = s.exited := by
+  simp only [ninvoke, hC c, nrunCmds] at h
+  cases ho : (sc c (s.count c)).out <;> simp only [ho, Res.state?, Option.some.injEq] at h <;> subst h <;> rfl
+
+theorem ncallbacks_exited (hC : NoCmds sc) (slot : Slot) (x : Ctx) : ∀ (cbs : List Nat) (s s' : NSt),
+    (ncallbacks sub sc cfg slot x cbs s).state? = some s' → s'.exited = s.exited
+  | [], s, s', h => by simp only [ncallbacks, Res.state?, Option.some.injEq] at h; subst h; rfl
+  | c :: cs, s, s', h => by
+    unfold ncallbacks at h
+    rcases bind_state h with ⟨e, he⟩ | ⟨a, s1, he, h1⟩
+    · exact ninvoke_exited sub sc cfg hC slot x c s s' (by rw [he]; rfl)
+    · rw [ncallbacks_exited hC slot x cs s1 s' h1]
+      exact ninvoke_exited sub sc cfg hC slot x c s s1 (by rw [he]; rfl)
+
+theorem nevalConds_exited (hC : NoCmds sc) (x : Ctx) : ∀ (cs : List Cond) (s s' : NSt),
+    (nevalConds sub sc cfg x cs s).state? = some s' → s'.exited = s.exited
+  | [], s, s', h => by simp only [nevalConds, Res.state?, Option.some.injEq] at h; subst h; rfl
+  | c :: cs, s, s', h => by
+    unfold nevalConds at h
+    rcases bind_state h with ⟨e, he⟩ | ⟨b, s1, he, h1⟩
+    · exact ninvoke_exited sub sc cfg hC _ x c.cb s s' (by rw [he]; rfl)
+    · have e1 := ninvoke_exited sub sc cfg hC _ x c.cb s s1 (by rw [he]; rfl)
+      split at h1
+      · rw [nevalConds_exited hC x cs s1 s' h1, e1]
+      · simp only [Res.state?, Option.some.injEq] at h1; subst h1; exact e1
+
+theorem exitAll_exited (hC : NoCmds sc) (x : Ctx) : ∀ (fs : List Found) (s s' : NSt),
+    (exitAll sub sc cfg x fs s).state? = some s' → s'.exited = s.exited
+  | [], s, s', h => by simp only [exitAll, Res.state?, Option.some.injEq] at h; subst h; rfl
+  | f :: fs, s, s', h => by
+    unfold exitAll at h
+    rcases bind_state h with ⟨e, he⟩ | ⟨a, s1, he, h1⟩
+    · exact ncallbacks_exited sub sc cfg hC _ x _ (s.emitG (.exit f.path)) s' (by rw [he]; rfl)
+    · rw [exitAll_exited hC x fs s1 s' h1]
+      exact ncallbacks_exited sub sc cfg hC _ x _ (s.emitG (.exit f.path)) s1 (by rw [he]; rfl)
+
+theorem enterAll_exited (hC : NoCmds sc) (x : Ctx) : ∀ (fs : List Found) (s s' : NSt),
+    (enterAll sub sc cfg x fs s).state? = some s' → s'.exited = s.exited
+  | [], s, s', h => by simp only [enterAll, Res.state?, Option.some.injEq] at h; subst h; rfl
+  | f :: fs, s, s', h => by
+    unfold enterAll at h
+    rcases bind_state h with ⟨e, he⟩ | ⟨a, s1, he, h1⟩
+    · exact ncallbacks_exited sub sc cfg hC _ x _ (s.emitG (.enter f.path)) s' (by rw [he]; rfl)
+    · rw [enterAll_exited hC x fs s1 s' h1]
+      exact ncallbacks_exited sub sc cfg hC _ x _ (s.emitG (.enter f.path)) s1 (by rw [he]; rfl)
+
+theorem nchangeState_exsub (hC : NoCmds sc) (scope : Scope) (x : Ctx) (dest : SPath) (s s' : NSt)
+    (h : (nchangeState sub sc cfg scope x dest s).state? = some s') : ExSub s s' := by
+  unfold nchangeState at h
+  split at h
+  · simp only [Res.state?, Option.some.injEq] at h; subst h; exact ExSub.refl _
+  · simp [Res.state?] at h
+  · rename_i r _
+    have q0 : ExSub s ({ s with exited := s.exited ++ r.exitNames } : NSt) := fun q hq => List.mem_append_left _ hq
+    rcases bind_state h with ⟨e, he⟩ | ⟨a, s1, he, h1⟩
+    · exact q0.trans (ExSub.of_eq (exitAll_exited sub sc cfg hC x _ _ s' (by rw [he]; rfl)))
+    · have e1 := exitAll_exited sub sc cfg hC x _ _ s1 (by rw [he]; rfl)
+      have e2 := enterAll_exited sub sc cfg hC x _ _ s' h1
+      exact q0.trans ((ExSub.of_eq e1).trans (ExSub.of_eq e2))
+
+theorem nexecute_exsub (hC : NoCmds sc) (scope : Scope) (x : Ctx) (tr : TRef) (t : NTrans) (s s' : NSt)
+    (h : (nexecute sub sc cfg scope x tr t s).state? = some s') : ExSub s s' := by
+  unfold nexecute at h
+  have cb : ∀ slot cbs (a b : NSt), (ncallbacks sub sc cfg slot x cbs a).state? = some b → ExSub a b :=
+    fun slot cbs a b hab => ExSub.of_eq (ncallbacks_exited sub sc cfg hC slot x cbs a b hab)
+  have q0 : ExSub s (s.emitG (.cand tr)) := ExSub.refl _
+  rcases bind_state h with ⟨e, he⟩ | ⟨_, s1, he, h⟩
+  · exact q0.trans (cb _ _ _ _ (by rw [he]; rfl))
+  have q1 := q0.trans (cb _ _ _ s1 (by rw [he]; rfl))
+  rcases bind_state h with ⟨e, he⟩ | ⟨ok, s2, he, h⟩
+  · exact q1.trans (ExSub.of_eq (nevalConds_exited sub sc cfg hC x _ s1 s' (by rw [he]; rfl)))
+  have q2 := q1.trans (ExSub.of_eq (nevalConds_exited sub sc cfg hC x _ s1 s2 (by rw [he]; rfl)))
+  cases ok with
+  | false => simp only [Bool.not_false, if_true, Res.state?, Option.some.injEq] at h; subst h; exact q2
+  | true =>
+  simp only [Bool.not_true, Bool.false_eq_true, if_false] at h
+  rcases bind_state h with ⟨e, he⟩ | ⟨_, s3, he, h⟩
+  · exact q2.trans (cb _ _ _ _ (by rw [he]; rfl))
+  have q3 : ExSub s (s3.emitG (.exec tr)) := q2.trans (cb _ _ _ s3 (by rw [he]; rfl))
+  rcases bind_state h with ⟨e, he⟩ | ⟨_, s4, he, h⟩
+  · exact q3.trans (cb _ _ _ _ (by rw [he]; rfl))
+  have q4 := q3.trans (cb _ _ _ s4 (by rw [he]; rfl))
+  have h5 : ∀ s5, (match t.dest with
+        | some d => nchangeState sub sc cfg scope x d s4
+        | none => .ok () s4).state? = some s5 → ExSub s4 s5 := by
+    intro s5 h
+    cases hd : t.dest with
+    | none => simp only [hd, Res.state?, Option.some.injEq] at h; subst h; exact ExSub.refl _
+    | some d => simp only [hd] at h; exact nchangeState_exsub sub sc cfg hC scope x d s4 s5 h
+  rcases bind_state h with ⟨e, he⟩ | ⟨_, s5, he, h⟩
+  · exact q4.trans (h5 _ (congrArg Res.state? he))
+  have q5 := q4.trans (h5 s5 (congrArg Res.state? he))
+  rcases bind_state h with ⟨e, he⟩ | ⟨_, s6, he, h⟩
+  · exact q5.trans (cb _ _ _ _ (by rw [he]; rfl))
+  have q6 := q5.trans (cb _ _ _ s6 (by rw [he]; rfl))
+  rcases bind_state h with ⟨e, he⟩ | ⟨_, s7, he, h⟩
+  · exact q6.trans (cb _ _ _ _ (by rw [he]; rfl))
+  have q7 := q6.trans (cb _ _ _ s7 (by rw [he]; rfl))
+  simp only [Res.state?, Option.some.injEq] at h; subst h; exact q7
+
+theorem ntry_exsub (hC : NoCmds sc) (scope : Scope) (x : Ctx) : ∀ (cands : List (TRef × NTrans)) (s s' : NSt),
+    (ntry sub sc cfg scope x cands s).state? = some s' → ExSub s s'
+  | [], s, s', h => by simp only [ntry, Res.state?, Option.some.injEq] at h; subst h; exact ExSub.refl _
+  | (tr, t) :: r, s, s', h => by
+    unfold ntry at h
+    rcases bind_state h with ⟨e, he⟩ | ⟨b, s1, he, h1⟩
+    · exact nexecute_exsub sub sc cfg hC scope x tr t s s' (by rw [he]; rfl)
+    · have q1 := nexecute_exsub sub sc cfg hC scope x tr t s s1 (by rw [he]; rfl)
+      cases b with
+      | true => simp only [if_true, Res.state?, Option.some.injEq] at h1; subst h1; exact q1
+      | false =>
+        simp only [Bool.false_eq_true, if_false] at h1
+        have q2 : ExSub s1 ({ s1 with result := some false } : NSt) := fun _ hq => hq
+        exact q1.trans (q2.trans (ntry_exsub hC scope x r _ s' h1))
+
+theorem nprocess_exsub (hC : NoCmds sc) (scope : Scope) (x : Ctx) (cands : List (TRef × NTrans)) (s s' : NSt)
+    (h : (nprocess sub sc cfg scope x cands s).state? = some s') : ExSub s s' := by
+  unfold nprocess at h
+  rcases bind_state h with ⟨e, he⟩ | ⟨_, s1, he, h1⟩
+  · exact ExSub.of_eq (ncallbacks_exited sub sc cfg hC _ x _ s s' (by rw [he]; rfl))
+  · exact (ExSub.of_eq (ncallbacks_exited sub sc cfg hC _ x _ s s1 (by rw [he]; rfl))).trans
+      (ntry_exsub sub sc cfg hC scope x cands s1 s' h1)
 
 end
 
@@ -417,18 +565,23 @@ def Srcs (ps done : List SPath) (offs : List SOffer) : Prop :=
 def P3 (ps : List SPath) (offs : List SOffer) : Prop :=
   ps.Pairwise (fun a b => properPrefix a b = false) → ps.Nodup → sAfter offs = true ∧ sOrder offs = true
 
-def Complete (pre : SPath) (ev : Nat) (ts : List NTrans) (ps done : List SPath) (offs : List SOffer) : Prop :=
+def Complete (pre : SPath) (ev : Nat) (ts : List NTrans) (ps done : List SPath) (offs : List SOffer) (s' : NSt) :
+    Prop :=
   ∀ p ∈ ps, p ∉ done → (ncandidates pre ev ts p).isEmpty = false →
-    (∃ o ∈ offs, o.src = p) ∨ (∃ o ∈ offs, o.executed = true ∧ isPrefix p o.src = true)
+    (∃ o ∈ offs, o.src = p) ∨ (∃ o ∈ offs, o.executed = true ∧ isPrefix p o.src = true) ∨ (pre ++ p) ∈ s'.exited
 
 def LoopErr (ts : List NTrans) (ps done : List SPath) (s s' : NSt) : Prop :=
   ∃ offs, Adds ts offs s s' ∧ Srcs ps done offs ∧ P3 ps offs
 
-def LoopOk (pre : SPath) (ev : Nat) (ts : List NTrans) (ps done : List SPath) (s s' : NSt) : Prop :=
-  ∃ offs, Adds ts offs s s' ∧ Srcs ps done offs ∧ P3 ps offs ∧ Complete pre ev ts ps done offs ∧
+/-- the loop ended normally with the `done` set `done'` -/
+def LoopOk (pre : SPath) (ev : Nat) (ts : List NTrans) (ps done : List SPath) (s : NSt) (done' : List SPath)
+    (s' : NSt) : Prop :=
+  ∃ offs, Adds ts offs s s' ∧ Srcs ps done offs ∧ P3 ps offs ∧ Complete pre ev ts ps done offs s' ∧
     s'.result = (match offs.getLast? with
       | some o => some o.executed
-      | none => s.result)
+      | none => s.result) ∧
+    (∃ ext, done' = done ++ ext ∧ (ext = [] ↔ offs.any (·.executed) = false)) ∧
+    ExSub s s'
 
 theorem Srcs.skip {p : SPath} {ps done : List SPath} {offs : List SOffer} (h : Srcs ps done offs) :
     Srcs (p :: ps) done offs := fun o ho => ⟨List.mem_cons_of_mem _ (h o ho).1, (h o ho).2⟩
@@ -481,12 +634,17 @@ theorem p3_combine {p : SPath} {ps done done' : List SPath} {cands : List (TRef 
 section
 variable (sub : NSub) (sc : Script) (cfg : NCfg)
 
+theorem prefixesOf_ne_nil {p : SPath} (h : p ≠ []) : prefixesOf p ≠ [] := by
+  cases p with
+  | nil => exact absurd rfl h
+  | cons a l => simp [prefixesOf, List.range_succ_eq_map]
+
 theorem tnLoop_main (hC : NoCmds sc) (scope : Scope) (x : Ctx) (ev : Nat) (ts : List NTrans) :
     ∀ (ps done : List SPath) (s : NSt),
-    Post (fun _ => LoopOk scope.pre ev ts ps done s) (LoopErr ts ps done s)
+    Post (LoopOk scope.pre ev ts ps done s) (LoopErr ts ps done s)
       (tnLoop sub sc cfg scope x ev ts ps done s)
   | [], done, s => by
-    refine ⟨[], Adds.refl s, by simp [Srcs], ?_, by simp [Complete], rfl⟩
+    refine ⟨[], Adds.refl s, by simp [Srcs], ?_, by simp [Complete], rfl, ⟨[], by simp, by simp⟩, ExSub.refl s⟩
     intro _ _; simp [sAfter, sOrder, pairs]
   | p :: ps, done, s => by
     unfold tnLoop
@@ -494,35 +652,36 @@ theorem tnLoop_main (hC : NoCmds sc) (scope : Scope) (x : Ctx) (ev : Nat) (ts : 
     split
     · rename_i hcond
       refine Post.mono (tnLoop_main hC scope x ev ts ps done s) ?_ ?_
-      · rintro _ s' ⟨offs, ha, h1, h2, h3, h4⟩
-        refine ⟨offs, ha, h1.skip, h2.skip, ?_, h4⟩
+      · rintro _ s' ⟨offs, ha, h1, h2, h3, h4, h5, h6⟩
+        refine ⟨offs, ha, h1.skip, h2.skip, ?_, h4, h5, h6⟩
         intro q hq hqd hqc
         rcases List.mem_cons.mp hq with rfl | hq
-        · rcases hcond with hcond | hcond
+        · rcases hcond with hcond | hcond | hcond
           · exact absurd hcond hqd
           · rw [hcond] at hqc; cases hqc
+          · exact Or.inr (Or.inr (h6 _ hcond))
         · exact h3 q hq hqd hqc
       · rintro s' ⟨offs, ha, h1, h2⟩
         exact ⟨offs, ha, h1.skip, h2.skip⟩
     · rename_i hcond
       have hpd : p ∉ done := fun hp => hcond (Or.inl hp)
       have hcne : ncandidates scope.pre ev ts p ≠ [] := by
-        intro h; apply hcond; right; rw [h]; rfl
+        intro h; apply hcond; right; left; rw [h]; rfl
       split
       · refine ⟨[], Adds.refl s, by simp [Srcs], ?_⟩
         intro _ _; simp [sAfter, sOrder, pairs]
       · rename_i f hgs
         have hpne : p ≠ [] := by
           intro hp; subst hp; rw [getState_nil] at hgs; cases hgs
-        refine Post.bind (nprocess_post2 (ts := ts) sub sc cfg hC scope x p _ s ncandidates_ok
-          (ncandidates_sorted _ _ _ _) hcne) ?_ ?_
-        · rintro s1 ⟨g, ha, hg⟩
+        refine Post.bind (Post.and (nprocess_post2 (ts := ts) sub sc cfg hC scope x p _ s ncandidates_ok
+          (ncandidates_sorted _ _ _ _) hcne) (Post.of_state (nprocess_exsub sub sc cfg hC scope x _ s))) ?_ ?_
+        · rintro s1 ⟨⟨g, ha, hg⟩, _⟩
           have := p3_combine (ps := ps) (done := done) (done' := done ++ prefixesOf p) (offs := []) hg hpd hpne
             (fun _ h => List.mem_append_left _ h) (fun _ _ _ q hq => List.mem_append_right _ hq)
             (by simp [Srcs]) (by intro _ _; simp [sAfter, sOrder, pairs])
           rw [List.append_nil] at this
           exact ⟨g, ha, this.1, this.2⟩
-        · rintro _ s1 ⟨g, ha, hg, ⟨ol, hl, hres⟩, hex⟩
+        · rintro _ s1 ⟨⟨g, ha, hg, ⟨ol, hl, hres⟩, hex⟩, hxs⟩
           generalize hd' : (if s1.result = some true then done ++ prefixesOf p else done) = done'
           have hsub : ∀ q, q ∈ done → q ∈ done' := by
             intro q hq; subst hd'; split
@@ -533,15 +692,24 @@ theorem tnLoop_main (hC : NoCmds sc) (scope : Scope) (x : Ctx) (ev : Nat) (ts : 
             subst hd'; rw [if_pos (hex o ho he)]
             exact List.mem_append_right _ hq
           have hol : ol ∈ g := List.mem_of_getLast? hl
+          -- some offer of the group executed iff the pass of this state set `result` to True
+          have hany : g.any (·.executed) = true ↔ s1.result = some true := by
+            constructor
+            · intro h
+              obtain ⟨o, ho, he⟩ := List.any_eq_true.mp h
+              exact hex o ho he
+            · intro h
+              rw [hres] at h
+              exact List.any_eq_true.mpr ⟨ol, hol, by simpa using h⟩
           refine Post.mono (tnLoop_main hC scope x ev ts ps done' s1) ?_ ?_
-          · rintro _ s' ⟨offs, ha', h1, h2, h3, h4⟩
+          · rintro dn s' ⟨offs, ha', h1, h2, h3, h4, ⟨ext, hdn, hext⟩, h6⟩
             obtain ⟨c1, c2⟩ := p3_combine hg hpd hpne hsub hex' h1 h2
-            refine ⟨g ++ offs, ha.trans ha', c1, c2, ?_, ?_⟩
+            refine ⟨g ++ offs, ha.trans ha', c1, c2, ?_, ?_, ?_, hxs.trans h6⟩
             · intro q hq hqd hqc
               rcases List.mem_cons.mp hq with rfl | hq
               · exact Or.inl ⟨ol, List.mem_append_left _ hol, hg.src ol hol⟩
               · by_cases hqd' : q ∈ done'
-                · right
+                · right; left
                   subst hd'
                   split at hqd'
                   · rename_i hr
@@ -551,13 +719,31 @@ theorem tnLoop_main (hC : NoCmds sc) (scope : Scope) (x : Ctx) (ev : Nat) (ts : 
                       · rw [hres] at hr; simpa using hr
                       · rw [hg.src ol hol]; exact isPrefix_of_mem_prefixesOf hm
                   · exact absurd hqd' hqd
-                · rcases h3 q hq hqd' hqc with ⟨o, ho, h⟩ | ⟨o, ho, h⟩
+                · rcases h3 q hq hqd' hqc with ⟨o, ho, h⟩ | ⟨o, ho, h⟩ | h
                   · exact Or.inl ⟨o, List.mem_append_right _ ho, h⟩
-                  · exact Or.inr ⟨o, List.mem_append_right _ ho, h⟩
+                  · exact Or.inr (Or.inl ⟨o, List.mem_append_right _ ho, h⟩)
+                  · exact Or.inr (Or.inr h)
             · rw [h4]
               cases offs with
               | nil => rw [List.append_nil, hl, hres]; rfl
               | cons b l => rw [List.getLast?_append, List.getLast?_cons]; rfl
+            · subst hd'
+              by_cases hr : s1.result = some true
+              · rw [if_pos hr] at hdn
+                refine ⟨prefixesOf p ++ ext, by rw [hdn, List.append_assoc], ?_⟩
+                have h1 : ¬ (prefixesOf p ++ ext = []) := by
+                  intro h; exact prefixesOf_ne_nil hpne (List.append_eq_nil_iff.mp h).1
+                have h2 : ¬ ((g ++ offs).any (·.executed) = false) := by
+                  rw [List.any_append, hany.mpr hr]; simp
+                exact ⟨fun h => absurd h h1, fun h => absurd h h2⟩
+              · rw [if_neg hr] at hdn
+                refine ⟨ext, hdn, ?_⟩
+                have hg0 : g.any (·.executed) = false := by
+                  cases hga : g.any (·.executed) with
+                  | false => rfl
+                  | true => exact absurd (hany.mp hga) hr
+                rw [List.any_append, hg0, Bool.false_or]
+                exact hext
           · rintro s' ⟨offs, ha', h1, h2⟩
             obtain ⟨c1, c2⟩ := p3_combine hg hpd hpne hsub hex' h1 h2
             exact ⟨g ++ offs, ha.trans ha', c1, c2⟩
